@@ -320,3 +320,23 @@ def coqchk_axioms(proj, libs, timeout=3000):
     rc, out = vlib.run(args, cwd=d, timeout=timeout)
     tail = out[out.find("CONTEXT SUMMARY"):] if "CONTEXT SUMMARY" in out else out[-1500:]
     return rc == 0, tail[:3000]
+
+
+def compose_step(ctx, prop, res, broken):
+    """Second proof step: the same property over STRINGS -- composition of the cron theorems with the
+    parser theorem parse_trigger_ok_wf (coq/zcompose).  Merges the obligation counts into `res`."""
+    from checks import c07
+    ok, out = c07.genparams()
+    if not ok and broken is None:
+        broken = {"stage": "genparams", "what": "parser translator could not read the expected declarations", "detail": out[-2000:]}
+    okb, outb = vlib.coq_build("parser")
+    if not okb and broken is None:
+        broken = {"stage": "coq-build", "what": "the parser development (needed by the composed theorems) no longer checks", "detail": outb[-2000:]}
+    res2, broken2 = vlib.proof_step(ctx, "zcompose", prop)
+    merged = dict(res)
+    merged["obligations"] = res["obligations"] + res2["obligations"]
+    merged["discharged"] = res["discharged"] + res2["discharged"]
+    merged["theorems"] = list(res["theorems"]) + list(res2["theorems"])
+    merged["axioms"] = sorted(set(res["axioms"]) | set(res2["axioms"]))
+    merged["ok"] = res.get("ok", False) and res2.get("ok", False)
+    return merged, (broken or broken2)
